@@ -8,6 +8,7 @@
 use std::{
     fmt,
     hash::Hash,
+    mem::ManuallyDrop,
     ops,
     sync::{Arc, PoisonError, TryLockError, TryLockResult, Weak},
 };
@@ -39,7 +40,7 @@ pub struct SharedObservable<T, L: Lock = SyncLock> {
     state: Arc<L::RwLock<ObservableState<T>>>,
     /// Ugly hack to track the amount of clones of this observable,
     /// *excluding subscribers*.
-    _num_clones: Arc<()>,
+    _num_clones: ManuallyDrop<Arc<()>>,
 }
 
 impl<T> SharedObservable<T> {
@@ -336,7 +337,7 @@ impl<T: Send + Sync + 'static> SharedObservable<T, AsyncLock> {
 
 impl<T, L: Lock> SharedObservable<T, L> {
     pub(crate) fn from_inner(state: Arc<L::RwLock<ObservableState<T>>>) -> Self {
-        Self { state, _num_clones: Arc::new(()) }
+        Self { state, _num_clones: ManuallyDrop::new(Arc::new(())) }
     }
 
     /// Get the number of `SharedObservable` clones.
@@ -426,9 +427,14 @@ where
 
 impl<T, L: Lock> Drop for SharedObservable<T, L> {
     fn drop(&mut self) {
+        // SAFETY: `_num_clones` is never used again after this.
+        let num_clones = unsafe { ManuallyDrop::take(&mut self._num_clones) };
+
         // Only close the state if there are no other clones of this
-        // `SharedObservable`.
-        if Arc::strong_count(&self._num_clones) == 1 {
+        // `SharedObservable`. Releasing our reference and finding out whether
+        // it was the last one has to be a single atomic step, otherwise two
+        // clones dropped at the same time could both conclude they aren't last.
+        if Arc::into_inner(num_clones).is_some() {
             // If there are no other clones, obtaining a read lock can't fail.
             L::read_noblock(&self.state).close();
         }
@@ -454,7 +460,7 @@ impl<T, L: Lock> WeakObservable<T, L> {
     pub fn upgrade(&self) -> Option<SharedObservable<T, L>> {
         let state = Weak::upgrade(&self.state)?;
         let _num_clones = Weak::upgrade(&self._num_clones)?;
-        Some(SharedObservable { state, _num_clones })
+        Some(SharedObservable { state, _num_clones: ManuallyDrop::new(_num_clones) })
     }
 }
 
